@@ -87,3 +87,17 @@ Theorem C16_object_type_loud_is_silent : forall o norm, TypeObj.wf norm o = true
   parse_lexemes norm false (TypeObj.lexemes o) = Ok (Some (TypeObj.denote norm o)).
 Proof. intros o norm H. rewrite !(TypeObjProofs.typeobj_parse o norm _ H). split; reflexivity. Qed.
 Print Assumptions C16_object_type_loud_is_silent.
+
+(* ---------- the statement parser as run() calls it ------------------------------------------------------------------------------------------
+   Parser.parse_statement (model: Api.parse_stmt_of, tied by correspondence F): with silent=True a statement on which PLY reported a
+   syntax error never raises — neither the syntax error nor anything a grammar action does with what is left of the statement after
+   the recovery (fix b0266a0) — and DDLParserError / SimpleDDLParserException never escape a silent run at all. *)
+From SDP Require Api ApiProofs.
+Theorem C16_silent_statement_with_syntax_error_never_raises : forall norm s e,
+  Api.statement_had_error true s = true -> Api.parse_stmt_of norm true s <> Raise e.
+Proof. exact ApiProofs.silent_statement_with_syntax_error_never_raises. Qed.
+Print Assumptions C16_silent_statement_with_syntax_error_never_raises.
+Theorem C16_silent_statement_never_raises_parser_errors : forall norm s,
+  Api.parse_stmt_of norm true s <> Raise DDLParserError /\ Api.parse_stmt_of norm true s <> Raise SimpleDDLParserException.
+Proof. exact ApiProofs.silent_statement_never_raises_parser_errors. Qed.
+Print Assumptions C16_silent_statement_never_raises_parser_errors.
